@@ -106,6 +106,17 @@ Theorem avatar_scan_fuel_suffices : forall w r fuel x rc, (w - x <= fuel)%nat ->
    cell_eqb (row_get r (fst (avt_scan fuel w r x rc))) (row_get r (S (fst (avt_scan fuel w r x rc))))) = false.
 Proof. exact avt_scan_stops. Qed.
 
+(* merged tree (fix commits "Avatar goto clamps the cursor to the screen", "Avatar cursor up/down/right stay on the screen"):
+   over ANY byte stream - not only written files - the Avatar parser keeps the caret column on the screen of the
+   loaders' non-terminal buffer (the row is not limited there), and the writer's Home sequence ^V^H 1 1 still means (0,0) *)
+Theorem avatar_caret_column : forall w bs ps p ps' p', (0 < w)%nat -> (px p < w)%nat ->
+  run avt_ps avt_astep (avt_bstep w) ps p bs = Some (ps', p') -> (px p' < w)%nat.
+Proof. exact avt_caret_column_proof. Qed.
+
+Theorem avatar_home_goto : forall w p, (0 < w)%nat ->
+  run avt_ps avt_astep (avt_bstep w) AChars p [22; 8; 1; 1] = Some (AChars, set_pos p 0 0).
+Proof. exact avt_home_goto. Qed.
+
 (* ---- non-vacuity: a picture with colour changes, a run, an empty row, a full-width row, an insignificant tail ---- *)
 Definition cells (s : list N) (fg bg : N) : list cell := map (fun ch => mkCell ch (mkAttr 0 fg bg 0)) s.
 Definition sample : sbuf :=
@@ -181,11 +192,23 @@ Proof.
 Qed.
 
 (* ---- the repaired defect (C15-avt-home-offset): with the parser's former zero-based goto, the writer's Home
-        sequence ^V^H 1 1 leaves the caret at (1,1), so the first cell of the picture is stored there ---- *)
-Definition avt_goto_zero_based (c ch : N) (p : pbuf) : pbuf := set_pos p (N.to_nat c) (N.to_nat ch).
+        sequence ^V^H 1 1 leaves the caret at (1,1), so the first cell of the picture is stored there (with or without
+        the clamp that the merged tree adds after the goto); the merged parser stores it at (0,0) ---- *)
+Definition avt_goto_zero_based (c ch : N) (p : pbuf) : pbuf := limit_caret 80 (set_pos p (N.to_nat c) (N.to_nat ch)).
 Example avt_goto_zero_based_refuted :
   let p := put 80 (avt_goto_zero_based 1 1 (page0 AVT)) (mkCell 65 default_attribute) in
   view (lines p) 0 0 = None /\ view (lines p) 1 1 = Some (mkCell 65 default_attribute) /\
-  let q := put 80 (set_pos (page0 AVT) (Nat.pred (N.to_nat 1)) (Nat.pred (N.to_nat 1))) (mkCell 65 default_attribute) in
-  view (lines q) 0 0 = Some (mkCell 65 default_attribute).
+  match run avt_ps avt_astep (avt_bstep 80) AChars (page0 AVT) [22; 8; 1; 1; 65] with
+  | Some (_, q) => view (lines q) 0 0 = Some (mkCell 65 default_attribute)
+  | None => False
+  end.
+Proof. vm_compute. repeat split. Qed.
+
+(* the clamp of the merged goto: ^V^H F0 F0 A stores the A in the last column (79), row 239 - the row of a
+   non-terminal buffer is not limited -, not beyond the right edge where Layer::set_char would drop it *)
+Example avt_goto_clamped :
+  match run avt_ps avt_astep (avt_bstep 80) AChars (page0 AVT) [22; 8; 240; 240; 65] with
+  | Some (_, q) => view (lines q) 79 239 = Some (mkCell 65 default_attribute) /\ px q = 0%nat /\ py q = 240%nat
+  | None => False
+  end.
 Proof. vm_compute. repeat split. Qed.
